@@ -39,8 +39,8 @@ MANIFEST = dict(
          "C04_getitem_errclass_any_partial; the former counter-examples are positive instances (C04_new_no_write, "
          "C04_new_root_is_miss). "
          "(3) Full-strength statement kept visible and refuted: C04_get_total_stmt, by a dict key literally named '*' "
-         "(C04_star_key_diverges_cex: get('*/x') runs out of fuel for every fuel; the implementation raises RecursionError = "
-         "finding C04-d). "
+         "(C04_star_key_diverges_cex: get('*/x') runs out of fuel for every fuel; the implementation ran into RecursionError, "
+         "since fix C04-e it answers a miss, also when the path resolves = finding C04-d). "
          "(4) Termination, proved (Proofs/XPathTerm*.lean, Model/XPathFuel.lean): for EVERY string and every "
          "tree whose dict keys are plain names (PlainTree: no '/ [ ] * ? = ~', quotes or blanks, not '..'), the search ends - "
          "with fuel >= termFuel t s neither get nor item access nor first answers OutOfFuel (C04_fuel_bound, hence "
@@ -59,12 +59,24 @@ MANIFEST = dict(
          "<= 3-4 tokens), the model is run with exactly that fuel and must agree with the implementation - in particular never "
          "answer OutOfFuel (stream xp.getf/bound) - and the depth of nested n0dict._find / n0list._find frames of the "
          "implementation must stay <= the bound, RecursionError being a violation (evaluator lookup/depth<=bound). "
+         "The interpreter's recursion limit (fix C04-e; ASSUMPTION, outside the model): the model has no stack - it computes the "
+         "answer for a path of any length (C04_fuel_bound). The implementation spends one interpreter frame per step (two for "
+         "name[i]), so with the default limit of 1000 a path of more than about 990 steps (less what the caller already uses) "
+         "cannot be searched. Before the fix RecursionError escaped from get, first and item access for a long but well-formed "
+         "path ('d/' + 'b/../'*500 + 'b'); now _get funnels it like the other four classes: get/first/'?' give the default, "
+         "item access raises IndexError, nothing is changed. For such a path that DOES resolve this miss is the honest answer of "
+         "the fixed code and is what the check requires: evaluator lookup/long (hundreds to thousands of 'x/../x', "
+         "'name[i]/../name[i]', '[j]/..[j]' repetitions on a real node of a random tree, chains of names / indexes on trees "
+         "up to 3000 deep, dict and list roots) demands that nothing but the five classes is raised, get/first never raise, "
+         "the tree is unchanged, the answer is the addressed node or a miss, and that it IS the node when the path has at most "
+         "SAFE_STEPS = 400 steps; stream xp.get/long compares the model with the code on the paths of <= 400 steps. "
          "The model of every lookup entry point (dict and list roots) is compared with the real code on token soup over the "
          "full xpath alphabet and on misses derived from real paths; the statement is executed on the implementation (no "
          "exception from get/first, default iff item access raises, only the five allowed classes from item access, tree "
          "unchanged).",
-    note="known finding: a dict key named '*' (or '..' below a '*' step) makes get('*/x') recurse until RecursionError (trees "
-         "of the harness have plain-name keys, so the streams do not meet it). Paths with a '[new()]' step are generated and "
+    note="known finding C04-d: a dict key named '*' (or '..' below a '*' step) makes a '*' step recurse until the interpreter's "
+         "limit: every such lookup is a miss, also N({'*': {'x': 1}})['*/x'] which resolves (trees of the harness have plain-name "
+         "keys, so the streams do not meet it). Paths with a '[new()]' step are generated and "
          "checked like all others since fix C04-a.",
     design_ref="5/C04",
 )
@@ -279,7 +291,8 @@ def term_fuel(tree, xp):
     def potL(i, g):
         if i == n:
             return R(g) + g + 2
-        return (W + 3) + max(pot(i + 1, 0, H, g + 1), potL(i + 1, g + 1))
+        # a name or a condition is handed to the dict-side search as it is (fix C06-f); an index step is walked on the list side
+        return max(1 + pot(i, 0, H, g), (W + 3) + max(pot(i + 1, 0, H, g + 1), potL(i + 1, g + 1)))
 
     old = sys.getrecursionlimit()
     sys.setrecursionlimit(max(old, 20000))
@@ -352,11 +365,173 @@ def check_depth(c):
     return None
 
 
+# ---------------------------------------------------------------------------------------------------------
+# long but well-formed paths (fix C04-e): every step is one nested call of _find, so a path with more steps than the
+# interpreter has frames left cannot be resolved.  The model has no such limit (it computes the answer, C04_fuel_bound);
+# the fixed code answers a MISS (default / IndexError) - RecursionError must never escape, nothing may change.
+# ---------------------------------------------------------------------------------------------------------
+# a path of at most this many steps (tokens; a merged token name[i] counts 2) that resolves must return the value:
+# the default recursion limit is 1000 frames, the harness itself uses fewer than 100, a step costs one frame
+SAFE_STEPS = 400
+
+
+def deep_tree(n, kinds):
+    """a chain of n containers ('d': {'a': ...}, 'l': [...]) around the text 'leaf', built without recursion"""
+    cur = "leaf"
+    for i in range(n):
+        cur = {"a": cur} if kinds[(n - 1 - i) % len(kinds)] == "d" else [cur]
+    return cur
+
+
+def flat_sig(t):
+    """structure and leaves of a tree as a flat list, without recursion (repr / enc_val / == recurse)"""
+    out, stack = [], [t]
+    while stack:
+        x = stack.pop()
+        if isinstance(x, dict):
+            out.append(("D", type(x).__name__, len(x)))
+            for k in reversed(list(dict.keys(x))):
+                stack.append(dict.__getitem__(x, k))
+                stack.append(("K", k))
+        elif isinstance(x, tuple) and len(x) == 2 and x[0] == "K":
+            out.append(x)
+        elif isinstance(x, (list, tuple)):
+            out.append(("L", type(x).__name__, len(x)))
+            for y in reversed(list(x)):
+                stack.append(y)
+        else:
+            out.append((type(x).__name__, x))
+    return out
+
+
+def long_case_parts(c):
+    """(container, path text, number of steps, the node the path addresses)"""
+    sp = c["long"]
+    if sp["kind"] == "chain":
+        n, kinds = sp["n"], sp["kinds"]
+        tree = deep_tree(n, kinds)
+        n0dict, n0list = X.n0()
+        o = n0dict(tree) if isinstance(tree, dict) else n0list(tree)   # the root class only: conversion recurses
+        toks = []
+        for i in range(n):
+            if kinds[i % len(kinds)] == "d":
+                toks.append("a")
+            elif sp.get("merged") and toks and not toks[-1].endswith("]"):
+                toks[-1] += "[0]"
+            else:
+                toks.append("[0]")
+        return o, sp.get("lead", "") + "/".join(toks), n, "leaf"   # n steps: a merged token a[0] stands for two containers
+    tree, pos, k, rep = c["tree"], c["pos"], sp["at"], sp["rep"]
+    o = X.convert(tree, c["mode"])
+    head = X.render_rel(tree, tuple(pos[: k + 1]))
+    # '..' goes up one STEP of the path, and name[i] is one step (the i-th 'name' of its parent, as in XML):
+    # key -> '/../key';  name[i] -> '/../name[i]';  an index below an index (a[1][0]) is a step of its own -> '/..[i]'
+    if isinstance(pos[k], str):
+        unit = "/../" + pos[k]
+    elif k > 0 and isinstance(pos[k - 1], str):
+        unit = "/../%s[%d]" % (pos[k - 1], pos[k])
+    else:
+        unit = "/..[%d]" % pos[k]
+    tail = "".join("/" + s if isinstance(s, str) else "[%d]" % s for s in pos[k + 1:])
+    xp = head + unit * rep + tail
+    return o, sp.get("lead", "") + xp, path_steps(xp), X.get_at(o, pos)
+
+
+def path_steps(xp):
+    """nested _find calls the path costs: one per token, two for a token with a name and an index (name[i], ..[i])"""
+    toks = [t.strip() for t in xp.replace("][", "]/[").split("/") if t]
+    return sum(2 if ("[" in t and not t.startswith("[")) else 1 for t in toks)
+
+
+def long_xp(c):
+    return long_case_parts(c)[1]
+
+
+def check_long(c):
+    o, xp, steps, want = long_case_parts(c)
+    before = flat_sig(o)
+    deep_ok = steps > SAFE_STEPS      # only then a miss is an acceptable answer for a path that resolves
+    item = core.call(lambda: o[xp])
+    if item[0] == "err":
+        if item[1] not in ALLOWED:
+            return {"item_access_raised": item[1], "steps": steps}
+        if not deep_ok:
+            return {"path_resolves_but_item_access_raised": item[1], "steps": steps}
+    elif item[1] is not want:
+        return {"item_access_returned": repr(item[1])[:100], "steps": steps}
+    q = core.call(lambda: o["?" + xp])
+    if q[0] != "ok":
+        return {"qmark_item_access_raised": q[1], "steps": steps}
+    if not (q[1] is want if item[0] == "ok" else same(q[1], "")):
+        return {"qmark_item_access_returned": repr(q[1])[:100], "item_access": item[0], "steps": steps}
+    for d in ("DFLT", None):
+        g = core.call(lambda: o.get(xp, d) if d is not None else o.get(xp))
+        f = core.call(lambda: o.first(xp, d) if d is not None else o.first(xp))
+        if g[0] != "ok":
+            return {"get_raised": g[1], "steps": steps}
+        if f[0] != "ok":
+            return {"first_raised": f[1], "steps": steps}
+        if item[0] == "ok":
+            if g[1] is not want:
+                return {"get_returned": repr(g[1])[:100], "item_access_returned_the_node": True, "steps": steps}
+            unwrapped = want[0] if isinstance(want, (list, tuple)) and len(want) == 1 else want
+            if f[1] is not unwrapped:
+                return {"first_returned": repr(f[1])[:100], "steps": steps}
+        else:
+            if not same(g[1], d):
+                return {"get_returned": repr(g[1])[:100], "item_access_raised": item[1], "want_default": d, "steps": steps}
+            if not same(f[1], d):
+                return {"first_returned": repr(f[1])[:100], "item_access_raised": item[1], "want_default": d, "steps": steps}
+    if flat_sig(o) != before:
+        return {"lookup_changed_tree": True, "steps": steps}
+    return None
+
+
+def gen_long(rng, ctx_thorough):
+    """long well-formed paths: hundreds of 'x/../x' and '[i]/..[i]' repetitions on a real node, long chains of names / indexes"""
+    r = rng.random()
+    lens = [50, 120, 199, 200, 300, 450, 520, 700, 1100, 2500] + ([10000] if ctx_thorough else [])
+    if r < 0.3:
+        kinds = rng.choice(["d", "dl", "ld", "l", "ddl", "lld"])
+        n = rng.choice([60, 150, 390, 400, 401, 600, 950, 1000, 1100, 1500, 3000])
+        return {"long": {"kind": "chain", "n": n, "kinds": kinds, "merged": rng.random() < 0.5, "lead": rng.choice(["", "", "/", "//"])}}
+    for _ in range(20):
+        t = X.gen_plain(rng, rng.choice([1, 2, 3]), "d")
+        # (a list root has no '..' that works - finding C06-f - and no name to repeat: list roots are met by the chains)
+        cands = [(p, k) for p, _ in X.positions(t) if p for k in range(len(p))]
+        if cands:
+            p, k = rng.choice(cands)
+            return {"tree": t, "mode": rng.choice(["n0", "wrap"]), "pos": list(p),
+                    "long": {"kind": "updown", "at": k, "rep": rng.choice(lens), "lead": rng.choice(["", "", "/", "//"])}}
+    return {"long": {"kind": "chain", "n": 700, "kinds": "d", "merged": False, "lead": ""}}
+
+
 def checker_of(evaluator):
+    if "long" in (evaluator or ""):
+        return check_long
     return check_depth if "depth" in (evaluator or "") else check_lookup
 
 
 def shrink_failure(evaluator, case):
+    if "long" in case:
+        # the number of repetitions may go down (the failure must stay the same kind of failure); tree, node and pattern stay
+        bad0 = check_long(case)
+        key0 = sorted(k for k in (bad0 or {}) if k != "steps")
+        best = case
+        field = "n" if case["long"]["kind"] == "chain" else "rep"
+        lo, hi = 0, case["long"][field]
+        while lo < hi:                       # smallest length that still fails in the same way (failures are monotone in length)
+            mid = (lo + hi) // 2
+            cand = dict(case, long=dict(case["long"], **{field: mid}))
+            try:
+                bad = check_long(cand) if mid > 0 else None
+            except Exception:
+                bad = None
+            if bad is not None and sorted(k for k in bad if k != "steps") == key0:
+                best, hi = cand, mid
+            else:
+                lo = mid + 1
+        return best
     if case.get("expect_hit"):
         return case  # the path was derived from this very tree: a smaller tree would fail for another reason
     chk = checker_of(evaluator)
@@ -380,7 +555,7 @@ def replay(rp):
 
 def witness_fails(f):
     w = f["witness"]
-    return check_lookup({"tree": w["tree"], "mode": w.get("mode", "n0"), "xp": w["xp"]}) is not None
+    return check_lookup({"tree": w["tree"], "mode": w.get("mode", "n0"), "xp": w["xp"], "expect_hit": w.get("expect_hit", False)}) is not None
 
 
 def run(ctx):
@@ -460,6 +635,34 @@ def run(ctx):
         lambda c: "xp.get %s %s %s %s" % (c["kind"], enc_str(c["xp"]), enc_val(c["d"]), enc_val(X.convert(c["tree"], c["mode"]))),
         impl_get,
     )
+    # ---- long but well-formed paths (fix C04-e): the search is one frame per step
+    rng = ctx.rng("long-paths")
+    thorough = ctx.tier == "thorough"
+    lcases = [gen_long(rng, thorough) for _ in range(ctx.budget(60, 900))]
+    # the audit's witnesses and their neighbourhood
+    for rep in (100, 300, 500, 5000):
+        lcases.append({"tree": {"d": {"b": "x"}, "h": [[1]]}, "mode": "n0", "pos": ["d", "b"], "long": {"kind": "updown", "at": 1, "rep": rep, "lead": ""}})
+        lcases.append({"tree": {"d": {"b": "x"}, "h": [[1]]}, "mode": "n0", "pos": ["h", 0], "long": {"kind": "updown", "at": 1, "rep": rep, "lead": ""}})
+    ctx.evaluate("lookup/long", lcases, check_long,
+                 nontrivial=lambda c: True)
+    # B on the part below the interpreter's limit: the model resolves them like the implementation (small trees only)
+    lb = [dict(c, xp=long_xp(c), kind=rng.choice("gif"), d=rng.choice([None, "D"])) for c in lcases
+          if c["long"]["kind"] == "updown" and long_case_parts(c)[2] <= SAFE_STEPS]
+    ctx.correspond(
+        "xp.get/long",
+        lb,
+        lambda c: "xp.get %s %s %s %s" % (c["kind"], enc_str(c["xp"]), enc_val(c["d"]), enc_val(X.convert(c["tree"], c["mode"]))),
+        impl_get,
+    )
+    ctx.extra["long_paths"] = {
+        "cases": len(lcases),
+        "max_steps": max(long_case_parts(c)[2] for c in lcases),
+        "answered_by_a_miss_above_SAFE_STEPS": sum(1 for c in lcases if long_case_parts(c)[2] > SAFE_STEPS
+                                                   and core.call(lambda: long_case_parts(c)[0][long_case_parts(c)[1]])[0] == "err"),
+        "required_to_resolve(<=SAFE_STEPS)": sum(1 for c in lcases if long_case_parts(c)[2] <= SAFE_STEPS),
+        "SAFE_STEPS": SAFE_STEPS,
+        "compared_with_model": len(lb),
+    }
     # ---- termination: the proven fuel bound (C04_fuel_bound) fed back into the check
     safe = [c for c in lk + ncases if safe_case(c)]
     rngt = ctx.rng("term")
@@ -493,7 +696,12 @@ def run(ctx):
         "bound_function_compared": len(small),
         "max_bound": max([term_fuel(c["tree"], c["xp"])[2] for c in sample] or [0]),
     }
-    ctx.extra["assumptions"] = ["trees have plain-name keys; strings are built from the xpath alphabet of the property"]
+    ctx.extra["assumptions"] = [
+        "trees have plain-name keys; strings are built from the xpath alphabet of the property",
+        "the interpreter's recursion limit is not modelled: a well-formed path of more than SAFE_STEPS = %d steps may be answered by a "
+        "miss although it resolves (default recursion limit 1000: about 990 steps are searched from top level; fix C04-e turns the "
+        "RecursionError beyond that into a miss)" % SAFE_STEPS,
+    ]
     ctx.extra["distribution"] = {
         "soup": sum(1 for c in cases if not c["xp"].startswith(("?",))),
         "with_new": sum(1 for c in cases if "new()" in c["xp"]),
